@@ -180,15 +180,19 @@ def main(pid, tier='quick', seed=None, replay=None):
             v = verdicts[i]
             if v == (0, 0):
                 continue
-            kf = None
-            for f in known_here:
-                if mod.matches_finding(f, c, o, v):
-                    kf = f
-                    break
-            if kf is not None:
-                if kf['id'] not in reported_known:
-                    print('KNOWN-FINDING: property=%s %s' % (pid, kf['what']))
-                    reported_known.add(kf['id'])
+            kfs = None
+            if hasattr(mod, 'covering_findings'):
+                kfs = mod.covering_findings(known_here, c, o, v)      # several findings may jointly explain a case
+            else:
+                for f in known_here:
+                    if mod.matches_finding(f, c, o, v):
+                        kfs = [f]
+                        break
+            if kfs:
+                for kf in kfs:
+                    if kf['id'] not in reported_known:
+                        print('KNOWN-FINDING: property=%s %s' % (pid, kf['what']))
+                        reported_known.add(kf['id'])
                 continue
             nviol += 1
             if nrep >= 5:
